@@ -13,6 +13,8 @@
  R5 every range is written: in a number tree each /Nums entry restarts the numbering at its /St, so
     an entry is never redundant; the loop of `PageLabelTree::to_dict` over the ranges reaches, on
     every iteration, the two pushes (page index, label dictionary) onto the /Nums array.
+ R6 every range is kept: `PageLabelTree::add_range` reaches its map insert on every path (no "same as the previous range" early return):
+    a range equal to its predecessor still restarts the numbering at its /St.
 Not decided: roman numerals; agreement with an independent reader.
 """
 from .. import lib as L
@@ -250,9 +252,25 @@ def r5(ctx):
     ctx.floor("R5", "range loop in PageLabelTree::to_dict", n, 1)
 
 
+def r6(ctx):
+    fn = ctx.fn("page_labels::page_label_tree::PageLabelTree::add_range", "R6")
+    g = CF.cfg(fn)
+    ins = [b for b, c, a, d in L.calls_to(fn, ["insert"])]
+    key = "add_range:inserts-unconditionally"
+    if not ctx.floor("R6", "insert in add_range", len(ins), 1):
+        return
+    w = g.path(0, g.return_blocks(), avoid_blocks=ins)
+    if w is None:
+        ctx.ok("R6", key, "every path inserts the range", fn.where(ins[0]))
+    else:
+        ctx.violation("R6", key, "add_range can return without inserting the range (line(s) %s): a range whose label repeats the "
+                      "preceding one is dropped, yet it restarts the numbering at its /St — 1,2,3,1,2,3 becomes 1,2,3,4,5,6 both in "
+                      "the labels the library computes and in the /Nums it writes" % sorted(set(fn.line(x) for x in w))[:8], fn.where(w[-1]))
+
+
 def run(ctx):
     from ..run import AnchorMissing
-    for r in (r1, r2, r3, r4, r5):
+    for r in (r1, r2, r3, r4, r5, r6):
         try:
             r(ctx)
         except AnchorMissing:
